@@ -33,7 +33,7 @@ type Solver struct {
 	fpMode bool     // the short floating-point timeout is in force
 	alt    *Solver  // cvc5, started on demand for queries with floating-point terms (z3 needs minutes for them)
 	isAlt  bool
-	xcap   int      // cross-solver sample: at most this many queries are kept
+	xcap   int // cross-solver sample: at most this many queries are kept
 	xlog   []xquery
 	xseen  int
 }
